@@ -279,8 +279,8 @@ def wfn_section() -> str:
 # WFX sections
 
 
-@section
-def wfx_section() -> str:
+def wfx_layout():
+    """(decimals, integers per line, reals per line, coordinates per line) of the WFX writer"""
     import re as _re
 
     src, tree = _src("wfx")
@@ -299,6 +299,14 @@ def wfx_section() -> str:
         raise LookupError(f"WFX: items per line {steps}")
     coords = next(fs for fn, fs in x.writes if fn == "dump_one" and any(f[0] == "other" and "item[0]" in f[1] for f in fs))
     per_c = sum(1 for f in coords if f[0] == "other")
+    return int(precs.pop()), per_i.pop(), per_r.pop(), per_c
+
+
+@section
+def wfx_section() -> str:
+    _, tree = _src("wfx")
+    x = L0.extract("wfx")
+    prec, per_i, per_r, per_c = wfx_layout()
     p = _func(tree, "parse_wfx")
     consts = [n.value for n in walk(p) if isinstance(n, ast.Constant) and isinstance(n.value, str)
               and not (isinstance(getattr(n, "_parent", None), ast.JoinedStr))]
@@ -307,7 +315,7 @@ def wfx_section() -> str:
     fparts = {id(v) for n in walk(p) if isinstance(n, ast.JoinedStr) for v in n.values}
     consts = [n.value for n in walk(p) if isinstance(n, ast.Constant) and isinstance(n.value, str) and id(n) not in fparts and n.value != doc]
     ws = ",\n   ".join(f"({chars(fn)}, [{', '.join(L0._field_lean(f) for f in fields)}])" for fn, fields in x.writes)
-    return (f"def wfxL : WfxS.Layout := ⟨{precs.pop()}, {per_i.pop()}, {per_r.pop()}, {per_c}⟩\n\n"
+    return (f"def wfxL : WfxS.Layout := ⟨{prec}, {per_i}, {per_r}, {per_c}⟩\n\n"
             f"def wfx_writes : List Write :=\n  [{ws}]\n\ndef wfx_parse_consts : List (List Char) := {strs(consts)}\n")
 
 
